@@ -88,5 +88,29 @@ Theorem C10_refusal_refuted :
 Proof. split; [vm_compute; reflexivity|]. split; [reflexivity|]. split; [reflexivity|]. vm_compute. reflexivity. Qed.
 Print Assumptions C10_refusal_refuted.
 
-(* NOT a theorem: optimality of the planner outside that class; it is decided per case against an exact search over
-   all legal streams (tools/props/refenc.py), any miss outside the recorded class is a violation. *)
+(* a further root cause (recorded finding C10-unbeatable-strike): the C40/Text plan treats the base-set characters ahead as
+   "unbeatable" and considers no switch while it reads them.  For the 22 bytes "4tzl6qs7msp4371778WL00" and all 48 sizes the
+   encoder stays in Text and needs the 18 data codewords of 18x18, although the 16-codeword stream below -- Text for the first
+   twelve characters, unlatch, ASCII for the rest -- is accepted by the crate's own decoder as exactly this message and a
+   12x26 symbol (16 data codewords) is listed; with that symbol alone the message is refused. *)
+Definition strike_input : list N := [52; 116; 122; 108; 54; 113; 115; 55; 109; 115; 112; 52; 51; 55; 49; 55; 55; 56; 87; 76; 48; 48].
+Definition strike_stream : list N := [239; 55; 80; 157; 239; 201; 211; 204; 145; 254; 167; 147; 208; 88; 77; 130].
+Theorem C10_strike_refuted :
+  decode_data strike_stream = Ok strike_input /\ length strike_stream = 16%nat /\
+  (exists s, In s sl_all /\ num_data_codewords s = 16) /\
+  match encode_eci stable_sorter strike_input sl_all 63 true false None with
+  | Ok (s, cw, _) => num_data_codewords s = 18
+  | _ => False
+  end.
+Proof. split; [vm_compute; reflexivity|]. split; [reflexivity|]. split; [exists Rect12x26; split; [apply sl_all_elements|reflexivity]|].
+  vm_compute. reflexivity. Qed.
+Print Assumptions C10_strike_refuted.
+
+Theorem C10_strike_refusal_refuted :
+  decode_data strike_stream = Ok strike_input /\ num_data_codewords Rect12x26 = 16 /\
+  encode_eci stable_sorter strike_input [Rect12x26] 63 true false None = Err TooMuchOrIllegalData.
+Proof. split; [vm_compute; reflexivity|]. split; [reflexivity|]. vm_compute. reflexivity. Qed.
+Print Assumptions C10_strike_refusal_refuted.
+
+(* NOT a theorem: optimality of the planner outside these classes; it is decided per case against an exact search over
+   all legal streams (tools/props/refenc.py), any miss outside the recorded classes is a violation. *)
